@@ -9,6 +9,10 @@ def sh(*a, **k):
     return subprocess.run(a, capture_output=True, text=True, **k)
 def key(d):
     m = re.match(r"C(\d+)-(\d+)", d); return (int(m.group(2)), int(m.group(1)))
+SAVE = "--save" in sys.argv
+if SAVE:
+    sys.argv.remove("--save")
+saved = []
 ids = sys.argv[1:] or sorted((os.path.basename(p) for p in glob.glob(ROOT + "/seeded/C*-*")), key=key)
 if sh("git", "-C", REPO, "status", "--porcelain").stdout.strip():
     sys.exit("/repo is not clean")
@@ -31,11 +35,31 @@ for sid in ids:
         viol = [l for l in c.stdout.splitlines() if l.startswith("VIOLATION")]
         ok = c.returncode == 1 and viol
         print(f"{sid}: {prop} quick rc={c.returncode} {'caught' if ok else 'NOT CAUGHT'}", flush=True)
+        if ok and SAVE:
+            # keep the shrunk failing case as a plain regression case of the test that produced it
+            for l in viol:
+                path = l.split("replay=")[-1].strip()
+                try:
+                    test = json.load(open(path)).get("_test")
+                except Exception:
+                    test = None
+                if test:
+                    os.makedirs(f"{ROOT}/regress/{test}", exist_ok=True)
+                    dst = f"{ROOT}/regress/{test}/seed-{sid}.json"
+                    subprocess.run(["cp", path, dst])
+                    saved.append((prop, dst))
+                    break
         bad += 0 if ok else 1
     finally:
         sh("git", "-C", REPO, "checkout", "--", ".")
         for f in sh("git", "-C", REPO, "ls-files", "--others", "--exclude-standard").stdout.split():
             os.remove(os.path.join(REPO, f))
+# a saved case must hold on the unchanged tree
+for prop, dst in saved:
+    c = subprocess.run(["python3", ROOT + "/run.py", "replay", prop, dst], capture_output=True, text=True)
+    if c.returncode != 0:
+        print(f"saved case {dst} does not hold on the unchanged tree: removed")
+        os.remove(dst)
 sh("git", "-C", ROOT, "checkout", "--", "evidence")
 print("not caught:", bad)
 sys.exit(1 if bad else 0)
